@@ -70,6 +70,14 @@ CHECKS = {
          "Decides that bystander code is only touched under a generator / iterator-type / Yield-call predicate, that the one pass rewriting arbitrary closures (eta reduction) keeps every closure whose reduction changes meaning, that returns/initialisers/branches inside ordinary closures nested in generators are left alone, and that no declaration is added.",
          "Loss of free-floating comments is behaviour-neutral except for //go: directives inside co files (not decided); go-imports trusted.",
          "DESIGN.md §4 C13"),
+ "C15": ("resolved-program scans (map ranges, nondeterminism sources), per-file reset path rule on rewriteFile, counter lifetime analysis of gensym, event-order rule on the intermediate directory",
+         "Decides the absence of every source of run-to-run or context dependence in the output path: no map iteration, no time/rand/pid/env, per-file state re-initialised before the first pass, unique-name counter advanced once per temporary and alive for exactly one file, intermediate directory emptied before use and removed afterwards, iterator temporaries named through gensym.",
+         "File order of go/packages and the output of go/printer are trusted; byte identity itself is not compared.",
+         "DESIGN.md §4 C15"),
+ "C16": ("abstract interpretation of GoGen / cogen with constant folding of string functions (file filter and both printers evaluated on concrete names), header constant checked with go/build/constraint, event-order rule on the intermediate directory",
+         "Decides necessary conditions of 'exactly the derived files': header well-formed and generated-code convention; loader tag = negated header tag; exactly *_co.go / *_co_test.go processed; each is written exactly to the sibling with the suffix removed (also for base names and directories containing the marker), through an intermediate directory that is emptied before and removed after; files not using the runtime are not written; cogen only runs in go:generate mode.",
+         "That the package builds, its tests pass, and a second run is byte-identical quantify over file-system states and toolchain behaviour and are not decided.",
+         "DESIGN.md §4 C16"),
 }
 
 NOT_APPLICABLE = {
